@@ -21,6 +21,10 @@ type lsCase struct {
 	Fam     int // family of φ
 	P, Q    int // shape parameters
 	StepExp int // first trial step 2^StepExp
+	// Cut != 0: the section leaves the domain of the objective beyond the
+	// step Cut/4: φ and φ' are NaN there (Cut > 0), or φ = +Inf with the
+	// derivative of the formula (Cut < 0, beyond |Cut|/4).
+	Cut int `json:",omitempty"`
 }
 
 var (
@@ -55,9 +59,83 @@ func (c lsCase) phi() (f, g func(s float64) float64, easy, bounded bool) {
 	}
 }
 
+// ---- the exported condition predicates with non-finite values ---------------------------------
+
+// predCase: f0, g0 < 0, step > 0, constants, and a finite value / derivative
+// at the step, all small dyadic numbers.
+type predCase struct {
+	F0, G0, Step, Dec, Curv, F, G int
+}
+
+// checkPredicates: a NaN (or +Inf) value satisfies no decrease condition and a
+// NaN derivative no curvature condition: the predicates "return true if the
+// ... condition(s) have been met".
+func checkPredicates(c predCase) *vk.Failure {
+	vk.Sample("ls-predicates", c)
+	f0, g0, step := float64(c.F0)/4, -float64(c.G0)/4, float64(c.Step)/4
+	dec, curv := lsDecrease[c.Dec], lsCurvature[c.Curv]
+	fs, gs := float64(c.F)/4, float64(c.G)/4
+	nan, inf := math.NaN(), math.Inf(1)
+	vk.NonTrivial("pred", c)
+	// finite arguments: the documented formulas
+	rhs := f0 + dec*step*g0
+	if got, want := optimize.ArmijoConditionMet(fs, f0, g0, step, dec), fs <= rhs; got != want {
+		return vk.Failf("armijo-predicate", "ArmijoConditionMet(%v, %v, %v, %v, %v) = %v", fs, f0, g0, step, dec, got)
+	}
+	if got, want := optimize.StrongWolfeConditionsMet(fs, gs, f0, g0, step, dec, curv), fs <= rhs && math.Abs(gs) < curv*math.Abs(g0); got != want {
+		return vk.Failf("strong-wolfe-predicate", "StrongWolfeConditionsMet(%v, %v, %v, %v, %v, %v, %v) = %v", fs, gs, f0, g0, step, dec, curv, got)
+	}
+	if got, want := optimize.WeakWolfeConditionsMet(fs, gs, f0, g0, step, dec, curv), fs <= rhs && gs >= curv*g0; got != want {
+		return vk.Failf("weak-wolfe-predicate", "WeakWolfeConditionsMet(%v, %v, %v, %v, %v, %v, %v) = %v", fs, gs, f0, g0, step, dec, curv, got)
+	}
+	for _, bad := range []float64{nan, inf} {
+		if optimize.ArmijoConditionMet(bad, f0, g0, step, dec) {
+			return vk.Failf("armijo-predicate-true-for-nan-or-inf-value", "ArmijoConditionMet(%v, %v, %v, %v, %v) = true", bad, f0, g0, step, dec)
+		}
+		if optimize.StrongWolfeConditionsMet(bad, gs, f0, g0, step, dec, curv) || optimize.WeakWolfeConditionsMet(bad, gs, f0, g0, step, dec, curv) {
+			return vk.Failf("wolfe-predicates-true-for-nan-or-inf-value", "StrongWolfeConditionsMet / WeakWolfeConditionsMet(currObj=%v, currGrad=%v, initObj=%v, initGrad=%v, step=%v, decrease=%v, curvature=%v) = %v / %v",
+				bad, gs, f0, g0, step, dec, curv, optimize.StrongWolfeConditionsMet(bad, gs, f0, g0, step, dec, curv), optimize.WeakWolfeConditionsMet(bad, gs, f0, g0, step, dec, curv))
+		}
+	}
+	if optimize.StrongWolfeConditionsMet(fs, nan, f0, g0, step, dec, curv) || optimize.WeakWolfeConditionsMet(fs, nan, f0, g0, step, dec, curv) {
+		return vk.Failf("wolfe-predicates-true-for-nan-derivative", "currObj=%v currGrad=NaN initObj=%v initGrad=%v step=%v decrease=%v curvature=%v", fs, f0, g0, step, dec, curv)
+	}
+	return nil
+}
+
+func TestLinesearchPredicates(t *testing.T) {
+	vk.Run(t, "ls-predicates", vk.Opts{Quick: 2000, Thorough: 40000, NoCrumb: true}, func(t *rapid.T) predCase {
+		return predCase{
+			F0: rapid.IntRange(-20, 20).Draw(t, "f0"), G0: rapid.IntRange(1, 20).Draw(t, "g0"), Step: rapid.IntRange(1, 40).Draw(t, "step"),
+			Dec: rapid.IntRange(0, len(lsDecrease)-1).Draw(t, "dec"), Curv: rapid.IntRange(0, len(lsCurvature)-1).Draw(t, "curv"),
+			F: rapid.IntRange(-60, 40).Draw(t, "f"), G: rapid.IntRange(-20, 20).Draw(t, "g"),
+		}
+	}, checkPredicates)
+}
+
 func checkLS(c lsCase) *vk.Failure {
 	vk.Sample("linesearch", c)
 	phi, dphi, easy, bounded := c.phi()
+	if c.Cut != 0 {
+		inner, dinner := phi, dphi
+		cut := math.Abs(float64(c.Cut)) / 4
+		easy = false
+		phi = func(s float64) float64 {
+			switch {
+			case !(s > cut):
+				return inner(s)
+			case c.Cut > 0:
+				return math.NaN()
+			}
+			return math.Inf(1)
+		}
+		dphi = func(s float64) float64 {
+			if s > cut && c.Cut > 0 {
+				return math.NaN()
+			}
+			return dinner(s)
+		}
+	}
 	dec, curv := lsDecrease[c.Dec], lsCurvature[c.Curv]
 	var ls optimize.Linesearcher
 	var name string
@@ -98,6 +176,12 @@ func checkLS(c lsCase) *vk.Failure {
 	valid := optimize.NoOperation // what is known at the current step
 	const maxIter = 100000
 	for it := 0; ; it++ {
+		if it >= maxIter && c.Cut != 0 {
+			// nothing is documented about how a search copes with NaN/+Inf
+			// values; only an accepted step is judged
+			vk.Class("ls/" + name + "/restricted-domain/no-termination-in-100000-iterations")
+			return nil
+		}
 		if it >= maxIter {
 			return vk.Failf("ls-does-not-terminate/"+name, "%s", desc(fmt.Sprintf("%d iterations without MajorIteration or error, step %g", maxIter, step)))
 		}
@@ -114,7 +198,7 @@ func checkLS(c lsCase) *vk.Failure {
 		if valid&optimize.GradEvaluation != 0 {
 			gv = dphi(step)
 		}
-		if math.IsInf(fv, 0) || math.IsInf(gv, 0) {
+		if c.Cut == 0 && (math.IsInf(fv, 0) || math.IsInf(gv, 0)) {
 			// φ overflowed: nothing is documented for non-finite values
 			vk.Class("ls/" + name + "/phi-overflow")
 			return nil
@@ -143,6 +227,12 @@ func checkLS(c lsCase) *vk.Failure {
 			// the conditions hold at the step evaluated last
 			fs, gs := phi(step), dphi(step)
 			vk.Class(fmt.Sprintf("ls/%s/family%d/accepted", name, c.Fam))
+			if c.Cut != 0 {
+				vk.Class("ls/" + name + "/restricted-domain/accepted")
+				if math.IsNaN(fs) || math.IsInf(fs, 1) {
+					return vk.Failf("ls-accepts-step-outside-the-domain/"+name, "%s", desc(fmt.Sprintf("accepted step %g where φ = %v (φ(0) = %v is finite)", step, fs, f0)))
+				}
+			}
 			if it >= 1 {
 				vk.NonTrivial("ls", c)
 			}
@@ -196,6 +286,12 @@ func TestLinesearch(t *testing.T) {
 		c.P = rapid.IntRange(1, 20).Draw(t, "p")
 		c.Q = rapid.IntRange(1, 20).Draw(t, "q")
 		c.StepExp = rapid.IntRange(-12, 12).Draw(t, "stepexp")
+		if rapid.IntRange(0, 3).Draw(t, "cutcls") == 0 {
+			c.Cut = rapid.IntRange(1, 40).Draw(t, "cut")
+			if rapid.Bool().Draw(t, "cutinf") {
+				c.Cut = -c.Cut
+			}
+		}
 		return c
 	}, checkLS)
 }
